@@ -206,6 +206,14 @@ func (seg *Segment) Similarity(s1 *Segment) int {
 		return -1
 	case s1.Type != seg.Type: // 完全不同的节点
 		return 0
+	case seg.Type == String: // 字符串节点中没有参数，其中的 { 和 } 只是普通字符，比如 /p/{a 与 /p/{b，按字节比较即可。
+		l := min(len(s1.Value), len(seg.Value))
+		for i := 0; i < l; i++ {
+			if s1.Value[i] != seg.Value[i] {
+				return i
+			}
+		}
+		return l
 	case seg.Type == Regexp:
 		// 后缀是正则表达式的一部分，不能从多字节字符的中间分隔，比如 é(C3 A9) 与 è(C3 A8)，否则表达式无法编译。
 		l := longestPrefix(s1.Value, seg.Value)
